@@ -240,8 +240,7 @@ namespace smt
     {
         assert(root_level());
         // we try to avoid creating a new variable..
-        std::sort(ls.begin(), ls.end(), [](const auto &l0, const auto &l1)
-                  { return variable(l0) < variable(l1); });
+        std::sort(ls.begin(), ls.end()); // equal literals become adjacent (and complementary ones consecutive)..
         lit p;
         size_t lits_size = 0;
         bool found_true = false; // whether one of the literals is already true..
@@ -323,8 +322,7 @@ namespace smt
     {
         assert(root_level());
         // we try to avoid creating a new variable..
-        std::sort(ls.begin(), ls.end(), [](const auto &l0, const auto &l1)
-                  { return variable(l0) < variable(l1); });
+        std::sort(ls.begin(), ls.end()); // equal literals become adjacent (and complementary ones consecutive)..
         lit p;
         size_t j = 0;
         bool found_true = false; // whether one of the literals is already true..
